@@ -186,6 +186,14 @@ func (c *caseCtx) runBoth(tree *gen.Expr, expr string, doc interface{}) (ref.Res
 	ok2 := c.judge(tree, expr, doc, "Compile+Search", o2, res)
 	o3 := apiJP(jp, mon.DeepCopy(doc))
 	ok3 := c.judge(tree, expr, doc, "Compile+Search (second call on the same compiled expression)", o3, res)
+	// a result belongs to the caller: the later call must not have changed what the earlier one returned
+	// (results sharing storage with the compiled expression's buffers)
+	if ok2 && ok3 && res.Skipped == "" && !res.DontCare && !matches(res, o2) {
+		c.r.Violate(&mon.Violation{Workload: c.wl, Index: c.idx, API: "Compile+Search", Expr: expr, Doc: doc,
+			Expected: "the value returned by the first call stays what it was (" + expectedString(res) + ") after a second call on the same compiled expression", Observed: o2.String(),
+			Class: c.wl + ": earlier result changed by a later call"})
+		ok3 = false
+	}
 	return res, o1, ok && ok2 && ok3
 }
 
